@@ -39,6 +39,26 @@ pub fn set_mode(m: &str) {
     MODE.store(v, Relaxed);
 }
 
+pub fn active() -> bool {
+    MODE.load(Relaxed) != 0
+}
+
+/// Make the pages holding [ptr, ptr+len) read-only (or read-write again).  Only meaningful for blocks handed out
+/// by this allocator in guard mode: each such block has its pages to itself.
+pub fn protect(ptr: *const u8, len: usize, readonly: bool) {
+    let b = BASE.load(Relaxed);
+    let a = ptr as usize;
+    if b == 0 || len == 0 || a < b || a >= b + ARENA {
+        return;
+    }
+    let start = a & !(PAGE - 1);
+    let end = (a + len + PAGE - 1) & !(PAGE - 1);
+    let prot = if readonly { libc::PROT_READ } else { libc::PROT_READ | libc::PROT_WRITE };
+    unsafe {
+        libc::mprotect(start as *mut libc::c_void, end - start, prot);
+    }
+}
+
 pub fn allocs() -> usize {
     NALLOC.load(Relaxed)
 }
